@@ -23,9 +23,10 @@ INVS = "GFilterOK GExact GConstraint GComplement GIdempotent GOnce GRestrict Law
 def plan(thorough):
     # (ranks, global dofs, largest local renumbering kind, filter kinds, unit filters over all index sets, palette)
     if thorough:
-        return [(1, 3, 2, ALLK, True, 1), (1, 4, 0, ALLK, True, 2), (2, 3, 5, ALLK, True, 2), (2, 4, 0, '{"gmean", "gchain_um", "gchain_mu"}', False, 1),
-                (3, 3, 1, ALLK, False, 1), (4, 3, 0, '{"gmean", "gchain_um"}', False, 2), (5, 2, 1, '{"gmean", "gchain_mu"}', False, 1), (6, 2, 0, '{"gmean"}', False, 2)]
-    return [(1, 3, 0, ALLK, True, 1), (2, 3, 1, ALLK, False, 2), (3, 2, 1, '{"gmean", "gchain_um", "gchain_mu"}', False, 1), (4, 2, 0, '{"gmean", "gchain_um"}', False, 2)]
+        return [(1, 3, 2, ALLK, True, 1), (1, 4, 0, ALLK, True, 2), (2, 3, 2, ALLK, True, 2), (2, 4, 0, '{"gmean", "gchain_um", "gchain_mu"}', False, 1),
+                (3, 3, 0, '{"gmean", "gchain_um"}', False, 1), (3, 2, 1, ALLK, True, 2), (4, 2, 1, '{"gmean", "gchain_mu"}', False, 1),
+                (5, 2, 0, '{"gmean", "gchain_mu"}', False, 1), (6, 2, 0, '{"gmean"}', False, 2)]
+    return [(1, 3, 0, ALLK, True, 1), (2, 3, 1, ALLK, False, 2), (3, 2, 0, '{"gmean", "gchain_um", "gchain_mu"}', False, 1), (4, 2, 0, '{"gmean"}', False, 2)]
 
 
 def gen(nr, nd, renk, kinds, uall, pal):
@@ -54,9 +55,9 @@ def shared(c):
 
 def sig(c, r):
     why = r.get("why") or ""
-    m = re.match(r"rank \d+: ([^:]*):? ?(filter_\w+|Global::Filter::filter_\w+)?", why)
+    m = re.search(r"/(\w+)/m[01]", why)
     s = {"part": "global", "nr": c["nr"], "filter": fkind(c["f"]), "shared": shared(c), "outcome": r.get("outcome", "mismatch"),
-         "route": (m.group(1).split("/")[1] if m and "/" in m.group(1) else "")}
+         "route": m.group(1) if m else ""}
     m = re.search(r"ASSERTION FAILED: ([^\n]*)", r.get("stderr") or "")
     if m:
         s["assert"] = m.group(1).strip()[:100]
@@ -93,6 +94,11 @@ def run(chk, binary, ex):
                 cases.append(c)
         if not cases:
             raise vlib.MachineryError("Gen_FilterGlobal produced no case for %d ranks" % nr)
+        if not thorough:
+            # quick tier: every case goes through "none" and three of the other routes (rotating, so that every route meets every
+            # filter kind on many decompositions); the thorough tier takes every case through every route
+            for i, c in enumerate(cases):
+                c["lcs"] = ["none"] + LCS_ALL[1:][i % 4::4]
         t0 = time.time()
         shards = max(1, min(3, 9 // nr))
         try:
@@ -112,5 +118,5 @@ def run(chk, binary, ex):
                 chk.sample({k: c[k] for k in ("part", "nr", "dofs", "count", "f", "loc", "den", "x0", "v1", "v2")})
     chk.extra["global_filter_cases"] = total
     chk.extra["global_filter_cases_with_shared_dofs"] = nshared
-    chk.extra["global_filter_routes_per_case"] = len(LCS_ALL)
+    chk.extra["global_filter_routes_per_case"] = len(LCS_ALL) if thorough else 4
     return total
